@@ -942,24 +942,24 @@ theorem ensure_nodup (m : Mirror) (pids : List Nat) (h : m.proxies.Nodup) : (m.e
       intro hab; subst hab
       exact hc (by simpa using ha)
 
-theorem mem_join_members (ms : List (String × Nat)) (g : String) (pids : List Nat) (e : String × Nat) :
-    e ∈ pids.foldl (fun ms p => if ms.contains (g, p) then ms else ms ++ [(g, p)]) ms ↔
-      e ∈ ms ∨ (e.1 = g ∧ e.2 ∈ pids) := by
+theorem mem_joinAll (ms : List (GKey × Nat)) (k : GKey) (pids : List Nat) (e : GKey × Nat) :
+    e ∈ joinAll k pids ms ↔ e ∈ ms ∨ (e.1 = k ∧ e.2 ∈ pids) := by
+  simp only [joinAll]
   induction pids generalizing ms with
   | nil => simp
   | cons p pids ih =>
     simp only [List.foldl_cons, List.mem_cons]
     rw [ih]
-    by_cases hc : ms.contains (g, p) = true
+    by_cases hc : ms.contains (k, p) = true
     · simp only [hc, ↓reduceIte]
-      have hm : (g, p) ∈ ms := by simpa using hc
+      have hm : (k, p) ∈ ms := by simpa using hc
       constructor
       · rintro (h | ⟨h1, h2⟩)
         · exact Or.inl h
         · exact Or.inr ⟨h1, Or.inr h2⟩
       · rintro (h | ⟨h1, rfl | h2⟩)
         · exact Or.inl h
-        · left; rw [show e = (g, e.2) from Prod.ext h1 rfl]; exact hm
+        · left; rw [show e = (k, e.2) from Prod.ext h1 rfl]; exact hm
         · exact Or.inr ⟨h1, h2⟩
     · simp only [hc, Bool.false_eq_true, ↓reduceIte, List.mem_append, List.mem_singleton]
       constructor
@@ -972,6 +972,36 @@ theorem mem_join_members (ms : List (String × Nat)) (g : String) (pids : List N
         · exact Or.inl (Or.inr (Prod.ext h1 rfl))
         · exact Or.inr ⟨h1, h2⟩
 
+/-- joining `k'` : the membership of `(k, pid)` afterwards -/
+theorem mem_joinAll_verdict (ms : List (GKey × Nat)) (k' k : GKey) (pids : List Nat) (pid : Nat) (acc : Option Bool)
+    (h : (k, pid) ∈ ms ↔ acc = some true) :
+    (k, pid) ∈ joinAll k' pids ms ↔ (if k' == k && pids.contains pid then some true else acc) = some true := by
+  rw [mem_joinAll, h]
+  simp only [List.contains_eq_mem, Bool.and_eq_true, beq_iff_eq, decide_eq_true_eq]
+  by_cases hg : k' = k
+  · subst hg
+    by_cases hc : pid ∈ pids <;> simp [hc]
+  · have : ¬ k = k' := fun e => hg e.symm
+    simp [hg, this]
+
+theorem mem_leaveAll_verdict (ms : List (GKey × Nat)) (k' k : GKey) (pids : List Nat) (pid : Nat) (acc : Option Bool)
+    (h : (k, pid) ∈ ms ↔ acc = some true) :
+    (k, pid) ∈ leaveAll k' pids ms ↔ (if k' == k && pids.contains pid then some false else acc) = some true := by
+  simp only [leaveAll, List.mem_filter, h, List.contains_eq_mem, decide_eq_true_eq,
+    Bool.and_eq_true, beq_iff_eq, Bool.not_eq_true', Bool.and_eq_false_imp]
+  by_cases hg : k' = k
+  · subst hg
+    by_cases hc : pid ∈ pids <;> simp [hc]
+  · have : ¬ k = k' := fun e => hg e.symm
+    simp [hg, this]
+
+theorem mem_exit_verdict (ms : List (GKey × Nat)) (k : GKey) (pids : List Nat) (pid : Nat) (acc : Option Bool)
+    (h : (k, pid) ∈ ms ↔ acc = some true) :
+    (k, pid) ∈ ms.filter (!pids.contains ·.2) ↔ (if pids.contains pid then some false else acc) = some true := by
+  simp only [List.mem_filter, h, List.contains_eq_mem, decide_eq_true_eq,
+    Bool.not_eq_true', decide_eq_false_iff_not]
+  by_cases hc : pid ∈ pids <;> simp [hc]
+
 theorem mirror_step_proxies (m : Mirror) (c : Ctl) (pid : Nat) (acc : Option Bool)
     (h : pid ∈ m.proxies ↔ acc = some true) :
     pid ∈ (m.step c).proxies ↔ verdict pid acc c = some true := by
@@ -983,12 +1013,12 @@ theorem mirror_step_proxies (m : Mirror) (c : Ctl) (pid : Nat) (acc : Option Boo
     simp only [Mirror.step, verdict, List.mem_filter, h, List.contains_eq_mem, decide_eq_true_eq,
       Bool.not_eq_true', decide_eq_false_iff_not]
     by_cases hc : pid ∈ pids <;> simp [hc]
-  | pgJoin g pids =>
+  | pgJoin s g pids =>
     simp only [Mirror.step, verdict, List.contains_eq_mem, decide_eq_true_eq]
     have : (pid ∈ (m.ensure pids).proxies) ↔ (acc = some true ∨ pid ∈ pids) := by rw [mem_ensure, h]
     rw [this]
     by_cases hc : pid ∈ pids <;> simp [hc]
-  | pgLeave g pids => simpa [Mirror.step, verdict] using h
+  | pgLeave s g pids => simpa [Mirror.step, verdict] using h
   | close => simp [Mirror.step, verdict]
 
 theorem mirror_run_proxies (m : Mirror) (cs : List Ctl) (pid : Nat) (acc : Option Bool)
@@ -1000,49 +1030,105 @@ theorem mirror_run_proxies (m : Mirror) (cs : List Ctl) (pid : Nat) (acc : Optio
     simp only [Mirror.run, List.foldl_cons]
     exact ih _ _ (mirror_step_proxies m c pid acc h)
 
-theorem mirror_step_members (m : Mirror) (c : Ctl) (g : String) (pid : Nat) (acc : Option Bool)
-    (h : (g, pid) ∈ m.members ↔ acc = some true) :
-    (g, pid) ∈ (m.step c).members ↔ verdictG g pid acc c = some true := by
+theorem mirror_step_members (m : Mirror) (c : Ctl) (k : GKey) (pid : Nat) (acc : Option Bool)
+    (h : (k, pid) ∈ m.members ↔ acc = some true) :
+    (k, pid) ∈ (m.step c).members ↔ verdictG k pid acc c = some true := by
   cases c with
   | spawn pids => simpa [Mirror.step, verdictG, ensure_members] using h
-  | terminate pids =>
-    simp only [Mirror.step, verdictG, List.mem_filter, h, List.contains_eq_mem, decide_eq_true_eq,
-      Bool.not_eq_true', decide_eq_false_iff_not]
-    by_cases hc : pid ∈ pids <;> simp [hc]
-  | pgJoin g' pids =>
+  | terminate pids => exact mem_exit_verdict m.members k pids pid acc h
+  | pgJoin s g pids =>
     simp only [Mirror.step, verdictG, ensure_members]
-    rw [mem_join_members, h]
-    simp only [List.contains_eq_mem, decide_eq_true_eq, Bool.and_eq_true, beq_iff_eq]
-    by_cases hg : g' = g
-    · subst hg
-      by_cases hc : pid ∈ pids <;> simp [hc]
-    · have : ¬ g = g' := fun e => hg e.symm
-      simp [hg, this]
-  | pgLeave g' pids =>
-    simp only [Mirror.step, verdictG, List.mem_filter, h, List.contains_eq_mem, decide_eq_true_eq,
-      Bool.and_eq_true, beq_iff_eq, Bool.not_eq_true', Bool.and_eq_false_imp]
-    by_cases hg : g' = g
-    · subst hg
-      by_cases hc : pid ∈ pids <;> simp [hc]
-    · have : ¬ g = g' := fun e => hg e.symm
-      simp [hg, this]
+    exact mem_joinAll_verdict m.members (s, g) k pids pid acc h
+  | pgLeave s g pids =>
+    simp only [Mirror.step, verdictG]
+    exact mem_leaveAll_verdict m.members (s, g) k pids pid acc h
   | close => simp [Mirror.step, verdictG]
 
-theorem mirror_run_members (m : Mirror) (cs : List Ctl) (g : String) (pid : Nat) (acc : Option Bool)
-    (h : (g, pid) ∈ m.members ↔ acc = some true) :
-    (g, pid) ∈ (m.run cs).members ↔ cs.foldl (verdictG g pid) acc = some true := by
+theorem mirror_run_members (m : Mirror) (cs : List Ctl) (k : GKey) (pid : Nat) (acc : Option Bool)
+    (h : (k, pid) ∈ m.members ↔ acc = some true) :
+    (k, pid) ∈ (m.run cs).members ↔ cs.foldl (verdictG k pid) acc = some true := by
   induction cs generalizing m acc with
   | nil => exact h
   | cons c cs ih =>
     simp only [Mirror.run, List.foldl_cons]
-    exact ih _ _ (mirror_step_members m c g pid acc h)
+    exact ih _ _ (mirror_step_members m c k pid acc h)
+
+/-! ### the sending side: local pg, initial scan, notifications -/
+
+/-- one local change and the notification forwarded for it do the same to `(k, pid)` -/
+theorem apply_note (L : Memb) (ev : PgEv) (k : GKey) (pid : Nat) (acc : Option Bool)
+    (h : (k, pid) ∈ L ↔ acc = some true) :
+    (k, pid) ∈ L.apply ev ↔ verdictG k pid acc ev.note = some true := by
+  cases ev with
+  | join s g pids => exact mem_joinAll_verdict L (s, g) k pids pid acc h
+  | leave s g pids => exact mem_leaveAll_verdict L (s, g) k pids pid acc h
+  | exit p => exact mem_exit_verdict L k [p] pid acc h
+
+theorem apply_notes (L : Memb) (evs : List PgEv) (k : GKey) (pid : Nat) (acc : Option Bool)
+    (h : (k, pid) ∈ L ↔ acc = some true) :
+    (k, pid) ∈ evs.foldl Memb.apply L ↔ (evs.map PgEv.note).foldl (verdictG k pid) acc = some true := by
+  induction evs generalizing L acc with
+  | nil => exact h
+  | cons ev evs ih =>
+    simp only [List.foldl_cons, List.map_cons]
+    exact ih _ _ (apply_note L ev k pid acc h)
+
+theorem mem_localMembers (L : Memb) (k : GKey) (pid : Nat) : pid ∈ localMembers L k ↔ (k, pid) ∈ L := by
+  simp only [localMembers, List.mem_map, List.mem_filter, beq_iff_eq]
+  constructor
+  · rintro ⟨e, ⟨he, hk⟩, hp⟩
+    rw [show (k, pid) = e from Prod.ext hk.symm hp.symm]; exact he
+  · intro h; exact ⟨(k, pid), ⟨h, rfl⟩, rfl⟩
+
+/-- the initial scan announces `(k, pid)` iff `k` is among the scanned keys and `pid` is a
+local member of exactly that scope and group -/
+theorem initialSync_verdict (keys : List GKey) (L : Memb) (k : GKey) (pid : Nat) (acc : Option Bool) :
+    (initialSync keys L).foldl (verdictG k pid) acc = some true ↔
+      acc = some true ∨ (k ∈ keys ∧ (k, pid) ∈ L) := by
+  induction keys generalizing acc with
+  | nil => simp [initialSync]
+  | cons k' keys ih =>
+    simp only [initialSync, List.filterMap_cons] at ih ⊢
+    by_cases hem : (localMembers L k').isEmpty = true
+    · simp only [hem, ↓reduceIte]
+      rw [ih]
+      have hno : ¬ (k, pid) ∈ L ∨ k ≠ k' := by
+        by_cases hk : k = k'
+        · subst hk
+          left; intro hm
+          have := (mem_localMembers L k pid).mpr hm
+          rw [List.isEmpty_iff] at hem; rw [hem] at this; exact absurd this (by simp)
+        · exact Or.inr hk
+      simp only [List.mem_cons]
+      constructor
+      · rintro (h | ⟨h1, h2⟩)
+        · exact Or.inl h
+        · exact Or.inr ⟨Or.inr h1, h2⟩
+      · rintro (h | ⟨h1 | h1, h2⟩)
+        · exact Or.inl h
+        · rcases hno with hno | hno
+          · exact absurd h2 hno
+          · exact absurd h1 hno
+        · exact Or.inr ⟨h1, h2⟩
+    · simp only [hem, Bool.false_eq_true, ↓reduceIte, List.foldl_cons]
+      rw [ih]
+      simp only [verdictG, List.mem_cons]
+      by_cases hk : k' = k
+      · subst hk
+        by_cases hp : (k', pid) ∈ L
+        · have : pid ∈ localMembers L k' := (mem_localMembers L k' pid).mpr hp
+          simp [this, hp]
+        · have : ¬ pid ∈ localMembers L k' := mt (mem_localMembers L k' pid).mp hp
+          simp [this, hp]
+      · have hk' : ¬ k = k' := fun e => hk e.symm
+        simp [hk, hk']
 
 theorem mirror_step_nodup (m : Mirror) (c : Ctl) (h : m.proxies.Nodup) : (m.step c).proxies.Nodup := by
   cases c with
   | spawn pids => exact ensure_nodup m pids h
   | terminate pids => exact h.sublist List.filter_sublist
-  | pgJoin g pids => exact ensure_nodup m pids h
-  | pgLeave g pids => exact h
+  | pgJoin s g pids => exact ensure_nodup m pids h
+  | pgLeave s g pids => exact h
   | close => exact List.nodup_nil
 
 theorem mirror_run_nodup (m : Mirror) (cs : List Ctl) (h : m.proxies.Nodup) : (m.run cs).proxies.Nodup := by
